@@ -11,6 +11,7 @@ import (
 	"os"
 	"os/exec"
 	"sort"
+	"strconv"
 	"strings"
 	"sync"
 	"time"
@@ -195,6 +196,47 @@ func c06Preds(rng *rand.Rand, n int) []*predicate.Predicate {
 	b := make([]byte, 16)
 	binary.PutVarint(b, c06T0.UnixNano())
 	res = append(res, gen.MustImm("p"+string(b)), gen.MustTemp("p"+string(b[:3]), c06T0), gen.MustImm(string(b)))
+	// boundary shifts between the id and what follows it, under several
+	// hypotheses about how the rest is encoded (a trimmed varint, an unsigned
+	// varint, decimal text): (id, anchor) against (id + first k bytes of the
+	// encoding, the anchor that encodes to the remaining bytes), and against
+	// the immutable predicate whose marker starts in the id
+	type codec struct {
+		enc func(int64) []byte
+		dec func([]byte) (int64, bool)
+	}
+	codecs := []codec{
+		{func(v int64) []byte { b := make([]byte, 16); return b[:binary.PutVarint(b, v)] },
+			func(b []byte) (int64, bool) { v, k := binary.Varint(b); return v, k == len(b) && k > 0 }},
+		{func(v int64) []byte { b := make([]byte, 16); return b[:binary.PutUvarint(b, uint64(v))] },
+			func(b []byte) (int64, bool) { v, k := binary.Uvarint(b); return int64(v), k == len(b) && k > 0 }},
+		{func(v int64) []byte { return []byte(strconv.FormatInt(v, 10)) },
+			func(b []byte) (int64, bool) { v, err := strconv.ParseInt(string(b), 10, 64); return v, err == nil }},
+	}
+	shiftTimes := append([]time.Time{}, times...)
+	for i := 0; i < 6; i++ {
+		shiftTimes = append(shiftTimes, time.Unix(0, rng.Int63n(1<<61)-(1<<60)).UTC())
+	}
+	for _, cd := range codecs {
+		for _, id := range []string{"p", "foo"} {
+			for _, t := range shiftTimes {
+				e := cd.enc(t.UnixNano())
+				res = append(res, gen.MustTemp(id, t))
+				for k := 1; k < len(e); k++ {
+					if v, ok := cd.dec(e[k:]); ok && string(cd.enc(v)) == string(e[k:]) {
+						res = append(res, gen.MustTemp(id+string(e[:k]), time.Unix(0, v).UTC()))
+					}
+				}
+			}
+			const marker = "immutable"
+			res = append(res, gen.MustImm(id))
+			for k := 1; k < len(marker); k++ {
+				if v, ok := cd.dec([]byte(marker[k:])); ok && string(cd.enc(v)) == marker[k:] {
+					res = append(res, gen.MustTemp(id+marker[:k], time.Unix(0, v).UTC()))
+				}
+			}
+		}
+	}
 	for i := 0; i < n; i++ {
 		p := gen.HPred(rng)
 		res = append(res, p)
